@@ -1,4 +1,4 @@
 From Coq Require Import ExtrOcamlBasic.
 From MT Require Import Bulk.VariousModel Bulk.TaskGroupModel Bulk.ParForModel.
 Extraction Language OCaml.
-Separate Extraction BinInt.Z.div_eucl BinInt.Z.mul BinInt.Z.add BinInt.Z.opp various many leaves creates leaf_threads fj exec tg_init tl_shape mem_shape tl_order pf3 pf2 pf_grain pr_aux pf_aux_prefix count3 pf3_guard pf2_guard pg_guard pr_guard.
+Separate Extraction BinInt.Z.div_eucl BinInt.Z.mul BinInt.Z.add BinInt.Z.opp various many leaves creates leaf_threads fj exec tg_init tl_shape mem_shape tl_order pf3 pf2 pf_grain pr_aux pf_aux_prefix pg_aux_prefix count3 pf3_guard pf2_guard pg_guard pr_guard.
